@@ -14,7 +14,7 @@ NMsg == Len(InitPrios)
 VARIABLES st, mon, obs
 View == <<Norm(st, CapBase), mon>>
 
-Init == st = SInitF(InitPrios) /\ mon = MonInit(NMsg) /\ obs = [k |-> "init", m |-> 0, a |-> 0, sel |-> 0]
+Init == st = SInitF(InitPrios) /\ mon = [MonInit(NMsg) EXCEPT !.hi = MaxPrio(InitPrios), !.mx = InitPrios, !.lo = InitPrios] /\ obs = [k |-> "init", m |-> 0, a |-> 0, sel |-> 0]
 
 DoNext == LET r == NextF(st) IN
           /\ r.sel # 0
